@@ -282,19 +282,19 @@ pub mod vx_ids {
                 forall|c: int| covers(old(self)@, c) && !covers(other@, c) ==> #[trigger] val_at(final(self)@, c).eq_spec(&val_at(old(self)@, c)),
                 forall|c: int| !covers(old(self)@, c) && covers(other@, c) ==> #[trigger] val_at(final(self)@, c).eq_spec(&val_at(other@, c)),
                 forall|c: int| covers(old(self)@, c) && covers(other@, c) ==> #[trigger] val_at(final(self)@, c).eq_spec(&val_at(old(self)@, c).merge_spec(&val_at(other@, c))),
-        @before 1 `return;`
+        @before 1 `stmt:return`
             proof { lemma_merge_empty_other(self@, other@); }
-        @before 2 `return;`
+        @before 2 `stmt:return`
             proof {
                 assert(self.0@ =~= other.0@);
                 lemma_merge_empty_self(old(self)@, other@);
             }
-        @before 1 `let mut result`
+        @before 1 `stmt:let result`
             proof {
                 axiom_vec_len_bound(&a);
                 axiom_vec_len_bound(b);
             }
-        @before 1 `while ai`
+        @before 1 `stmt:while`
             proof { lemma_minv_init(a@, b@, result@); }
         @loop 1
             invariant_except_break
@@ -311,16 +311,13 @@ pub mod vx_ids {
             ensures
                 minv(a@, b@, result@, inf(), inf()),
             decreases a.len() - ai + b.len() - bi,
-        @before 1 `let a_avail`
+        @before 1 `stmt:let a_avail`
             let ghost r0 = result@;
             let ghost fa = front(a@, ai as int, a_cur as int);
             let ghost fb = front(b@, bi as int, b_cur as int);
-        @after 1 `push_coalesced(`
+        @after 1 `stmt:call push_coalesced`
             proof {
                 lemma_adv_full(a@, ai as int, a_cur as int);
-                assert forall|c: int| #![trigger covers(result@, c)] covers(result@, c) <==> covers(r0, c) || inr(fb..a_cur, c) by {
-                    if inr(fb..a_cur, c) { assert(covers(result@, c)); } else { assert(covers(result@, c) <==> covers(r0, c)); }
-                }
                 lemma_step(a@, b@, r0, result@, fa, fb, next_front(a@, ai as int), fb,
                     a_cur, a@[ai as int].0.end, a@[ai as int].1, true, false);
             }
@@ -330,23 +327,17 @@ pub mod vx_ids {
                 canon(b@),
                 ai <= i <= a.len(),
                 minv(a@, b@, result@, front(a@, i as int, a@[i as int].0.start as int), inf()),
-        @before 2 `push_coalesced(`
+        @before 2 `stmt:call push_coalesced`
             let ghost r1 = result@;
-        @after 2 `push_coalesced(`
+        @after 2 `stmt:call push_coalesced`
             proof {
                 lemma_adv_full(a@, i as int, a@[i as int].0.start as int);
-                assert forall|c: int| #![trigger covers(result@, c)] covers(result@, c) <==> covers(r1, c) || inr(next_front(a@..i as int), c) by {
-                    if inr(next_front(a@..i as int), c) { assert(covers(result@, c)); } else { assert(covers(result@, c) <==> covers(r1, c)); }
-                }
-                lemma_step(a@, b@, r1, result@, front(a@, i as int, a@[i as int].0.start as int), inf(), next_front(a@, i as int), inf(),
+                lemma_step(a@, b@, r1, result@, a@[i as int].0.start as int, inf(), next_front(a@, i as int), inf(),
                     a@[i as int].0.start, a@[i as int].0.end, a@[i as int].1, true, false);
             }
-        @after 3 `push_coalesced(`
+        @after 3 `stmt:call push_coalesced`
             proof {
                 lemma_adv_full(b@, bi as int, b_cur as int);
-                assert forall|c: int| #![trigger covers(result@, c)] covers(result@, c) <==> covers(r0, c) || inr(bi as int)..b_cur, c) by {
-                    if inr(bi as int)..b_cur, c) { assert(covers(result@, c)); } else { assert(covers(result@, c) <==> covers(r0, c)); }
-                }
                 lemma_step(a@, b@, r0, result@, fa, fb, fa, next_front(b@, bi as int),
                     b_cur, b@[bi as int].0.end, b@[bi as int].1, false, true);
             }
@@ -356,66 +347,48 @@ pub mod vx_ids {
                 canon(b@),
                 bi <= i <= b.len(),
                 minv(a@, b@, result@, inf(), front(b@, i as int, b@[i as int].0.start as int)),
-        @before 4 `push_coalesced(`
+        @before 4 `stmt:call push_coalesced`
             let ghost r1 = result@;
-        @after 4 `push_coalesced(`
+        @after 4 `stmt:call push_coalesced`
             proof {
                 lemma_adv_full(b@, i as int, b@[i as int].0.start as int);
-                assert forall|c: int| #![trigger covers(result@, c)] covers(result@, c) <==> covers(r1, c) || inr(inf()..next_front(b@, c) by {
-                    if inr(inf()..next_front(b@, c) { assert(covers(result@, c)); } else { assert(covers(result@, c) <==> covers(r1, c)); }
-                }
-                lemma_step(a@, b@, r1, result@, inf(), front(b@, i as int, b@[i as int].0.start as int), inf(), next_front(b@, i as int),
+                lemma_step(a@, b@, r1, result@, inf(), b@[i as int].0.start as int, inf(), next_front(b@, i as int),
                     b@[i as int].0.start, b@[i as int].0.end, b@[i as int].1, false, true);
             }
-        @after 5 `push_coalesced(`
+        @after 5 `stmt:call push_coalesced`
             proof {
                 lemma_adv_full(a@, ai as int, a_cur as int);
-                assert forall|c: int| #![trigger covers(result@, c)] covers(result@, c) <==> covers(r0, c) || inr(fb..a_cur, c) by {
-                    if inr(fb..a_cur, c) { assert(covers(result@, c)); } else { assert(covers(result@, c) <==> covers(r0, c)); }
-                }
                 lemma_step(a@, b@, r0, result@, fa, fb, next_front(a@, ai as int), fb,
                     a_cur, a_end, a@[ai as int].1, true, false);
             }
-        @after 6 `push_coalesced(`
+        @after 6 `stmt:call push_coalesced`
             proof {
                 lemma_adv_full(b@, bi as int, b_cur as int);
-                assert forall|c: int| #![trigger covers(result@, c)] covers(result@, c) <==> covers(r0, c) || inr(bi as int)..b_cur, c) by {
-                    if inr(bi as int)..b_cur, c) { assert(covers(result@, c)); } else { assert(covers(result@, c) <==> covers(r0, c)); }
-                }
                 lemma_step(a@, b@, r0, result@, fa, fb, fa, next_front(b@, bi as int),
                     b_cur, b_end, b@[bi as int].1, false, true);
             }
-        @after 7 `push_coalesced(`
+        @after 7 `stmt:call push_coalesced`
             proof {
                 lemma_adv_part(a@, ai as int, a_cur as int, b_cur as int);
-                assert forall|c: int| #![trigger covers(result@, c)] covers(result@, c) <==> covers(r0, c) || inr(a_cur..b_cur, c) by {
-                    if inr(a_cur..b_cur, c) { assert(covers(result@, c)); } else { assert(covers(result@, c) <==> covers(r0, c)); }
-                }
                 lemma_step(a@, b@, r0, result@, fa, fb, b_cur as int, fb,
                     a_cur, b_cur, a@[ai as int].1, true, false);
             }
-        @after 8 `push_coalesced(`
+        @after 8 `stmt:call push_coalesced`
             proof {
                 lemma_adv_part(b@, bi as int, b_cur as int, a_cur as int);
-                assert forall|c: int| #![trigger covers(result@, c)] covers(result@, c) <==> covers(r0, c) || inr(b_cur..a_cur, c) by {
-                    if inr(b_cur..a_cur, c) { assert(covers(result@, c)); } else { assert(covers(result@, c) <==> covers(r0, c)); }
-                }
                 lemma_step(a@, b@, r0, result@, fa, fb, fa, a_cur as int,
                     b_cur, a_cur, b@[bi as int].1, false, true);
             }
-        @before 1 `let overlap_start`
+        @before 1 `stmt:let overlap_start`
             let ghost r1 = result@;
             let ghost os = umax(a_cur, b_cur);
             let ghost oe = umin(a_end, b_end);
             proof { assert(minv(a@, b@, r1, os as int, os as int)); }
-        @before 9 `push_coalesced(`
-            let ghost mv = merged;
+        @after 9 `stmt:call push_coalesced`
             proof {
+                let mv = merged;
                 assert(overlap_start == os && overlap_end == oe);
                 assert(mv == a@[ai as int].1.merge_spec(&b@[bi as int].1));
-            }
-        @after 9 `push_coalesced(`
-            proof {
                 let fa2 = if a_end <= b_end { next_front(a@, ai as int) } else { oe as int };
                 let fb2 = if b_end <= a_end { next_front(b@, bi as int) } else { oe as int };
                 if a_end <= b_end { lemma_adv_full(a@, ai as int, os as int); } else { lemma_adv_part(a@, ai as int, os as int, oe as int); }
@@ -423,9 +396,6 @@ pub mod vx_ids {
                 assert forall|c: int| #![trigger val_at(a@, c)] os <= c < oe implies val_at(a@, c).merge_spec(&val_at(b@, c)) == mv by {
                     assert(val_at(a@, c) == a@[ai as int].1);
                     assert(val_at(b@, c) == b@[bi as int].1);
-                }
-                assert forall|c: int| #![trigger covers(result@, c)] covers(result@, c) <==> covers(r1, c) || inr(os..oe, c) by {
-                    if inr(os..oe, c) { assert(covers(result@, c)); } else { assert(covers(result@, c) <==> covers(r1, c)); }
                 }
                 lemma_step(a@, b@, r1, result@, os as int, os as int, fa2, fb2, os, oe, mv, true, true);
                 assert(minv(a@, b@, result@, fa2, fb2));
